@@ -143,11 +143,12 @@ const (
 	SigOtherKey                   // flag commit, honest signature by a key outside the set
 	SigNilAsCommit                // honest signature over a nil vote, but flagged as commit
 	SigWrongRound                 // flag commit, honest signature over round+1
+	SigCopy                       // the complete CommitSig (address, timestamp, signature) of another, honestly signing slot
 	NSigKinds
 )
 
 func (k SigKind) String() string {
-	return [...]string{"valid", "absent", "nil", "forged", "wrong-height", "wrong-block", "wrong-chain", "other-key", "nil-as-commit", "wrong-round"}[k]
+	return [...]string{"valid", "absent", "nil", "forged", "wrong-height", "wrong-block", "wrong-chain", "other-key", "nil-as-commit", "wrong-round", "copy"}[k]
 }
 
 // Spec describes one header + commit to build.
@@ -166,6 +167,7 @@ type Spec struct {
 	CommitHashOverride     []byte // commit.BlockID.Hash (default: header hash)
 	DropSlots              int    // remove this many trailing signature slots
 	Salt                   byte   // varies DataHash so equal-height headers differ
+	CopyFrom               []int  // for SigCopy slots: slot index to copy (per slot; default: the first SigValid slot)
 }
 
 // Built is the result.
@@ -283,10 +285,37 @@ func Build(s Spec, rng *rand.Rand) *Built {
 			cs.Signature = sign(v.Priv, s.ChainID, ch, s.Round, types.BlockID{})
 		case SigWrongRound:
 			cs.Signature = sign(v.Priv, s.ChainID, ch, s.Round+1, bid)
+		case SigCopy:
+			cs = types.NewCommitSigAbsent() // filled in below
 		default:
 			panic(fmt.Sprint("tmsynth: kind ", k))
 		}
 		sigs[i] = cs
+	}
+	// copies: one validator's genuine CommitSig repeated in other validators' slots (precommit
+	// sign-bytes contain neither address nor index, so the bytes are a valid signature of the source
+	// validator wherever they are placed)
+	for i := range sigs {
+		if s.Kinds == nil || s.Kinds[i] != SigCopy {
+			continue
+		}
+		src := -1
+		if s.CopyFrom != nil && i < len(s.CopyFrom) && s.CopyFrom[i] >= 0 && s.CopyFrom[i] < len(sigs) && s.Kinds[s.CopyFrom[i]] == SigValid {
+			src = s.CopyFrom[i]
+		} else {
+			for j := range sigs {
+				if s.Kinds[j] == SigValid {
+					src = j
+					break
+				}
+			}
+		}
+		if src >= 0 {
+			c := sigs[src]
+			c.ValidatorAddress = append([]byte{}, c.ValidatorAddress...)
+			c.Signature = append([]byte{}, c.Signature...)
+			sigs[i] = c
+		}
 	}
 	if s.DropSlots > 0 && s.DropSlots <= len(sigs) {
 		sigs = sigs[:len(sigs)-s.DropSlots]
